@@ -4,4 +4,4 @@ cd /verif
 echo "== clean tree"; for i in $(seq -w 1 20); do ./check C$i >/dev/null 2>&1; echo -n "C$i:$? "; done; echo
 echo "== self-validation"; /venv/bin/python tools/selftest.py 2>&1 | tail -1
 echo "== seeded changes"; /venv/bin/python tools/seeded_run.py 2>&1 | tail -1
-echo "== refactor fixtures"; for d in refactors/*/; do echo -n "$(basename $d): "; tools/refcheck.sh $d/patch.diff 2>&1 | tail -1; done
+echo "== refactor fixtures"; tools/refactors_run.sh 2>&1 | grep -v conda
